@@ -20,11 +20,13 @@ pub struct DataOpts {
     pub one_way: bool,
     /// Receiver of direction 2 (B->A) never consumes (port blocking scenario uses two ports instead).
     pub max_len_factor: u64,
+    /// The harness toggles sink back-pressure (poll_ready pending) on either direction.
+    pub backpressure: bool,
 }
 
 impl Default for DataOpts {
     fn default() -> Self {
-        DataOpts { sends: 6, cancel: true, ports: true, defer: 1, one_way: false, max_len_factor: 3 }
+        DataOpts { sends: 6, cancel: true, ports: true, defer: 1, one_way: false, max_len_factor: 3, backpressure: false }
     }
 }
 
@@ -146,7 +148,15 @@ pub async fn scenario(seed: u64, opts: &DataOpts) {
         }
         let mut acted = false;
         let di = rng.below(2) as usize;
-        let action = if draining { 3 + rng.below(5) } else { rng.below(8) };
+        let action = if draining { 3 + rng.below(5) } else { rng.below(if opts.backpressure { 10 } else { 8 }) };
+        if draining {
+            // healthy transport for the verdicts: no back-pressure any more
+            for l in [&conn.ab, &conn.ba] {
+                if l.0.lock().unwrap().blocked {
+                    l.set(|st| st.blocked = false);
+                }
+            }
+        }
         let d = &mut dirs[di];
         match action {
             // ---- start a send
@@ -359,6 +369,21 @@ pub async fn scenario(seed: u64, opts: &DataOpts) {
                     }
                     acted = true;
                 }
+            }
+            // ---- cancel the receive call (recv_any / recv_chunk are cancel safe)
+            2 if opts.cancel && !draining && d.recv_op.as_ref().is_some_and(|o| o.polls > 0) && rng.chance(1, 6) => {
+                let op = d.recv_op.take().unwrap();
+                tr(json!({"ev": "api_cancel", "op": op.id, "polls": op.polls}));
+                with_label(op.label, || drop(op));
+                acted = true;
+            }
+            // ---- transport back-pressure: the sink of one direction stops / resumes accepting frames
+            8 | 9 if rng.chance(1, 3) => {
+                let l = if action == 8 { &conn.ab } else { &conn.ba };
+                let now = l.0.lock().unwrap().blocked;
+                l.set(|st| st.blocked = !now);
+                tr(json!({"ev": "backpressure", "dir": l.1, "on": !now}));
+                acted = true;
             }
             6 if conn.ab.pending() > 0 => {
                 conn.ab.deliver();
